@@ -327,7 +327,20 @@ fn check_generated(st: &mut Stats, case: &crate::gen::Case, counters: &mut (u64,
                                 st.outcome("compiled-twin-differs-from-the-reference(C01's business, no claim)");
                             }
                             Out::Val(v) => {
-                                let cls = if tag.contains("destructure-call") || defs_text.contains("(@ ") { "constant-differs/@-capture".to_string() } else { format!("constant-differs/{}", case.tags[0]) };
+                                // F27's symptom in a closed expression: a let/assign-bound name used in an `if` arm comes back as its (generated) NAME
+                                fn has_generated_name(t: &T) -> bool {
+                                    match t {
+                                        T::A(b) => String::from_utf8_lossy(b).contains("_$_"),
+                                        T::P(x, y) => has_generated_name(x) || has_generated_name(y),
+                                    }
+                                }
+                                let cls = if expr.contains("(if ") && has_generated_name(&c) {
+                                    "evaluator/variables-in-if-branches-replaced-by-their-names".to_string()
+                                } else if tag.contains("destructure-call") || defs_text.contains("(@ ") {
+                                    "constant-differs/@-capture".to_string()
+                                } else {
+                                    format!("constant-differs/{}", case.tags[0])
+                                };
                                 st.violation(&cls, format!("after {} the REPL reduces {} to {}, the compiled program {} returns {}", defs_text, expr, c.short(), text, v.short()), expr.len(), replay)
                             }
                             _ => st.count("compiled-program-has-no-value(no claim)", 1),
